@@ -232,7 +232,7 @@ def coverage_of(traces):
                 continue
             if a["a"] == "SetAllow":
                 allow = a["allow"]
-            key = "%s:%s:%s" % (dd["cfg"], a["a"], dd["res"])
+            key = "%s:%s:%s" % ("ica-walk" if dd["cfg"] == "walk" else dd["cfg"], a["a"], dd["res"])
             if a["a"] == "Recv" and dd["res"] == "ok":
                 key += ":" + dd["ack"]
             cov[key] += 1
@@ -253,14 +253,14 @@ def coverage_of(traces):
 # vacuity floors: substrings of coverage keys that must have a positive count
 FLOORS = {
     "C37": ["exec-star:Recv:ok:result", "exec-star:Recv:ok:error", "exec-specific:Recv:ok:result", "exec-specific:Recv:ok:error",
-            "exec-empty:Recv:ok:error", "Recv:noop", "walk:Recv:ok:result"],
-    "C38": ["walk:Register:ok", "walk:Register:err", "walk:OpenInit:ok", "walk:OpenInit:err", "walk:Ack:ok", "walk:Ack:err", "walk:Confirm:ok",
-            "walk:Timeout:ok", "walk:SendTx:ok", "walk:SendTx:err", "InitOnHost:err", "TryOnController:err", "CloseConfirm:ok",
+            "exec-empty:Recv:ok:error", "exec-star:Recv:noop", "ica-walk:Recv:ok:"],
+    "C38": ["Register:ok", "Register:err", "OpenInit:ok", "OpenInit:err", "Ack:ok", "Ack:err", "Confirm:ok", "Timeout:ok", "SendTx:ok", "SendTx:err",
+            "InitOnHost:err", "TryOnController:err", "CloseConfirm:ok", "ica-walk:Ack:ok", "ica-walk:Timeout:ok",
             "cover:reopen-completed", "cover:reopen-with-different-ordering-or-metadata-rejected", "cover:class-inflight-ack",
             "cover:class-host-confirm-overwrite", "cover:init-by-stranger-accepted", "cover:sendtx-by-stranger-rejected",
-            "cover:ordered-channel-closed-by-timeout"],
+            "cover:ordered-channel-closed-by-timeout", "cover:ack-while-active-open-rejected"],
     "C39": ["gmp-exec:Recv:ok:result", "gmp-exec:Recv:ok:error", "gmp-exec:Recv:noop", "gmp-auth:Send:ok", "gmp-auth:Send:err",
-            "gmp-walk:Recv:ok:result", "derive:Derive:ok"],
+            "gmp-walk:Recv:ok:", "derive:Derive:ok"],
 }
 
 
@@ -297,7 +297,7 @@ def run_family(tier, seed, binary=None):
     for tr, step, prop, clause in fails:
         failing.setdefault(tr, by_id.get(tr))
     samples = {}
-    for p, pick in (("C37", "exec-specific"), ("C38", "walk"), ("C39", "gmp-exec")):
+    for p, pick in (("C37", "exec-specific"), ("C38", "tour"), ("C39", "gmp-exec")):
         for tr, (kind, lines) in traces.items():
             first = json.loads(lines[0])
             if first["cfg"] == pick:
